@@ -968,3 +968,171 @@ pub fn c03_cases(l: &Ledger) -> Vec<u64> {
 
 #[allow(dead_code)]
 fn _alg(_: Alg) {}
+
+// ---------------------------------------------------------------------------------------------
+// C03: systematic structure-aware sweep (length fields at header / attribute / nested level set to
+// every value from zero to a little beyond the original; multi-byte UTF-8 and quoting characters
+// injected at every offset of every string attribute) on valid in-flight messages, each variant
+// (a) decoded in all 16 configurations and (b) delivered to the client in the state it was in when
+// the original message arrived (exact re-execution of the plan with that one delivery replaced).
+// ---------------------------------------------------------------------------------------------
+
+fn c03_variants(bytes: &[u8]) -> Vec<String> {
+    let mut v = vec![];
+    let Ok(p) = wire::parse(bytes) else { return v };
+    let hl = p.len as u64;
+    for x in (0..=hl + 8).filter(|x| *x != hl) {
+        v.push(format!("corrupt=hdrlen-set v={}", x));
+    }
+    for (i, a) in p.attrs.iter().enumerate() {
+        let l = a.value.len() as u64;
+        let hi = (l + 8).min(l + (bytes.len() as u64).saturating_sub((a.off + 4) as u64 + l) + 4);
+        for x in (0..=hi).filter(|x| *x != l) {
+            v.push(format!("corrupt=attrlen-set idx={} v={}", i, x));
+        }
+    }
+    let nests: Vec<&wire::RawAttr> = p.attrs.iter().filter(|a| a.typ == wire::A_PASSWORD_ALGORITHMS || a.typ == wire::A_PASSWORD_ALGORITHM).collect();
+    for (ni, a) in nests.iter().enumerate() {
+        let mut pos = 0usize;
+        let mut k = 0usize;
+        while pos + 4 <= a.value.len() {
+            let l = u16::from_be_bytes([a.value[pos + 2], a.value[pos + 3]]) as u64;
+            for x in (0..=l + 9).filter(|x| *x != l) {
+                v.push(format!("corrupt=nested-set idx={} k={} v={}", ni, k, x));
+            }
+            pos += 4 + wire::pad4(l as usize);
+            k += 1;
+        }
+    }
+    let strs: Vec<&wire::RawAttr> = p
+        .attrs
+        .iter()
+        .filter(|a| matches!(a.typ, wire::A_NONCE | wire::A_REALM | wire::A_SOFTWARE | wire::A_USERNAME | wire::A_ERROR_CODE))
+        .collect();
+    for (si, a) in strs.iter().enumerate() {
+        let lo = if a.typ == wire::A_ERROR_CODE { 4.min(a.value.len()) } else { 0 };
+        for pos in 0..=(a.value.len() - lo) {
+            for val in 0..6 {
+                v.push(format!("corrupt=utf8 idx={} pos={} val={}", si, pos, val));
+            }
+        }
+    }
+    v
+}
+
+pub fn extra_c03(spec: &PropSpec, args: &CheckArgs) -> ExtraResult {
+    let thorough = args.tier == "thorough";
+    let n_runs: u64 = if thorough { 6000 } else { 500 };
+    let merged: std::sync::Mutex<ExtraResult> = std::sync::Mutex::new(ExtraResult::default());
+    let next = std::sync::atomic::AtomicU64::new(0);
+    let shapes: std::sync::Mutex<BTreeMap<u64, usize>> = std::sync::Mutex::new(BTreeMap::new());
+    // a calm profile: conversations without random faults, so that the swept message is the only damage
+    let mut calm = spec.clone();
+    calm.profile.p_perfect = 1000;
+    calm.profile.n_inj = (0, 0);
+    calm.opts = world::RunOpts::default();
+    std::thread::scope(|sc| {
+        for _ in 0..args.threads.max(1) {
+            sc.spawn(|| {
+                world::install_quiet_panic_hook();
+                let mut r = ExtraResult::default();
+                loop {
+                    let run = next.fetch_add(1, std::sync::atomic::Ordering::Relaxed);
+                    if run >= n_runs {
+                        break;
+                    }
+                    let (l, entries) = crate::runner::run_one(&calm, args.seed ^ 0xC03C03, run);
+                    if l.panicked().is_some() {
+                        continue;
+                    }
+                    let lib_key = match &l.cfg.mech {
+                        Mech::ShortTerm(_) => libtap::short_term_key(&l.cfg.password),
+                        Mech::LongTerm => libtap::long_term_key(&l.cfg.user, &l.cfg.realm, &l.cfg.password, true),
+                        Mech::None => None,
+                    };
+                    for st in &l.steps {
+                        let Call::Recv { bytes, origin, fault } = &st.call else { continue };
+                        let Origin::S2c(n, c) = origin else { continue };
+                        if !fault.is_empty() || st.phase == Phase::Probe {
+                            continue;
+                        }
+                        let Ok(p) = wire::parse(bytes) else { continue };
+                        if p.class < 2 {
+                            continue;
+                        }
+                        let state = l.steps.get(st.idx.saturating_sub(1)).map(|s| s.snap.cred.split(" params").next().unwrap_or("").to_string()).unwrap_or_default();
+                        let shape = hash_of(&(p.types(), p.class, p.error_code(), state, l.cfg.fp, l.cfg.is_reliable()));
+                        {
+                            let mut g = shapes.lock().unwrap();
+                            let cnt = g.entry(shape).or_insert(0);
+                            if *cnt >= 2 {
+                                continue;
+                            }
+                            *cnt += 1;
+                        }
+                        *r.counters.entry("c03_sweep_messages".into()).or_insert(0) += 1;
+                        for var in c03_variants(bytes) {
+                            let kv = crate::plan::parse_kv(&var);
+                            let mut b2 = bytes.clone();
+                            let key = l.cfg.pw().into_bytes();
+                            if world::apply_corruption(&mut b2, &kv, &key).is_none() {
+                                continue;
+                            }
+                            r.evaluations += 1;
+                            let kind = var.split_whitespace().next().unwrap_or("").to_string();
+                            *r.counters.entry(format!("c03_sweep_{}", kind.replace("corrupt=", ""))).or_insert(0) += 1;
+                            let mut found: Vec<(String, String)> = tap_c03(&b2, lib_key.as_ref(), run * 31 + st.idx as u64);
+                            // exact re-execution with this one delivery replaced
+                            let over = format!("n={} c={} {}", n, c, var);
+                            let mut e2 = entries.clone();
+                            e2.push(("override".to_string(), over));
+                            let l2 = crate::runner::replay_entries(&calm, &e2);
+                            let outcome = match l2.panicked() {
+                                Some((idx, msg)) => {
+                                    let loc = msg.rsplit(" at ").next().unwrap_or("?").to_string();
+                                    let call = match &l2.steps[idx].call {
+                                        Call::Recv { .. } => "on_buffer_recv",
+                                        Call::SendRequest { .. } => "send_request",
+                                        Call::SendIndication { .. } => "send_indication",
+                                        Call::Timeout { .. } => "on_timeout",
+                                        Call::Restart => "restart",
+                                    };
+                                    // the replayed run stops at the client's panic: report under that key only
+                                    found.clear();
+                                    found.push((format!("C03/panic-in-client({},{})", call, loc), format!("step {}: {} after {}", idx, msg, var)));
+                                    9u8
+                                }
+                                None => {
+                                    let st2 = l2.steps.iter().find(|s| matches!(&s.call, Call::Recv { origin: o, .. } if o == origin));
+                                    match st2.map(|s| (&s.result, s.events.first())) {
+                                        Some((CallResult::Ok, Some(Ev::Received(_)))) => 0,
+                                        Some((CallResult::Ok, Some(Ev::Retry(_)))) => 1,
+                                        Some((CallResult::Ok, Some(Ev::Failed(..)))) => 2,
+                                        Some((CallResult::Err(_), _)) => 3,
+                                        _ => 4,
+                                    }
+                                }
+                            };
+                            r.distinct.insert(hash_of(&(shape, kind, libtap::decodes(&b2), outcome)));
+                            for (k, d) in found {
+                                if r.violations.len() < 8 {
+                                    r.violations.push((viol("C03", k, st.idx, d), e2.clone()));
+                                }
+                            }
+                        }
+                    }
+                }
+                let mut m = merged.lock().unwrap();
+                m.evaluations += r.evaluations;
+                m.distinct.extend(r.distinct);
+                for (k, c) in r.counters {
+                    *m.counters.entry(k).or_insert(0) += c;
+                }
+                m.violations.extend(r.violations);
+            });
+        }
+    });
+    let mut res = merged.into_inner().unwrap();
+    res.samples.push("systematic sweep: for each sampled valid in-flight response, header / attribute / nested length fields set to every value 0..=original+8 and a multi-byte or quoting sequence injected at every offset of every string attribute; each variant decoded in 16 configurations and delivered to the client in the exact state it had when the original arrived".to_string());
+    res
+}
